@@ -74,6 +74,18 @@ func checkC03(c *Ctx) {
 	c.c03Reset("C03", m, t)
 	c.c03Replies(m, t)
 	c.c01Atomic("C03/ATOMIC", m)
+	// inside the DATA read itself a failed read (the peer went away before the final dot)
+	// must surface as an error; otherwise the bytes read so far are delivered
+	r.Rule("C03/ATOMIC/read-error", "in the DATA-read function no return reachable on the error edge of the bulk read (io.ReadAll/ReadFull/Copy/ReadDotBytes/...) reports success")
+	n := c.errNotSwallowed("C03/ATOMIC/read-error", []*ssa.Function{m.dataRead}, func(name string) bool {
+		switch name {
+		case "io.ReadAll", "io.ReadFull", "io.ReadAtLeast", "io.Copy", "io.CopyN", "io/ioutil.ReadAll",
+			"(*net/textproto.Reader).ReadDotBytes", "(*net/textproto.Reader).ReadDotLines", "(*bytes.Buffer).ReadFrom":
+			return true
+		}
+		return false
+	}, false, "a connection that ends in the middle of DATA leaves a partial (or empty) message in every accepted recipient's mailbox")
+	r.Floor("C03/ATOMIC/read-error", "bulk reads in the DATA-read function", n, 1)
 }
 
 func (c *Ctx) c03Sequence(pfx string, m *smtpModel, t *smtpTS) {
